@@ -16,8 +16,9 @@ claim("C01", "13 shape types: constructor -> write_to -> typed and generic read_
       "Outside: counts beyond the grid; on-disk routes; generic (Shape) iteration of multi-vertex records (Kani 0.68 mis-models moving an enum with Vec payload out of a Result; "
       "their generic decode is checked at Shape::read_from by reference).")
 claim("C02", "Real ShapeWriter output for 0-3 shapes of each of the 13 types (symbolic coordinates) is walked and decoded by an independent, strict codec "
-      "(kani/src/refcodec.rs: no byteorder, no shapefile types) and compared field by field with what was handed to the writer.",
-      "Outside: counts beyond the grid.")
+      "(kani/src/refcodec.rs: no byteorder, no shapefile types) and compared field by field with what was handed to the writer; the file is the one left behind after drop, after an explicit finalize, or after "
+      "an intermediate finalize followed by further writes (histories write-finalize-write-drop and write-write-finalize-write-finalize).",
+      "Outside: counts beyond the grid; other finalize histories (C09 covers those against the drop-only file).")
 claim("C04", "Real ShapeWriter::with_shx for n in 0..3 records of different sizes: the .shx bytes are compared with an independent walk of the .shp bytes, "
       "then the real ShapeReader::with_shx must report n, return the i-th shape at i<n and None beyond, iterate identically with and without index, with exact size hints.",
       "Outside: n > 3; path-created pairs.")
@@ -61,7 +62,7 @@ claim("C08", "Write side of the pairing through the complete Writer with the rea
       "The defect the property describes (row rejected after the shape was written) is found and listed as an open known finding.",
       "Read side (ShapeRecordIterator over dbase::Reader, Reader::seek) is OUTSIDE the claim: dbase::Reader::new did not finish symbolic execution. Only stub: the clock read for the .dbf header date.")
 claim("C14", "Point records laid out by the independent encoder in every permutation of 3 (and 2) with filler words before/between/after (symbolic filler bytes), index in logical order: iteration must yield one shape per index entry in index order, equal to random access; "
-      "one harness per layout. The defect found (records stored before an earlier-indexed one dropped) is fixed in /repo.",
+      "one harness per layout (quick tier: [0,1] with gaps, [1,0], and the 3-record orders [0,1,2], [2,0,1], [1,0,2], [2,1,0] without filler; thorough tier: all 6 orders x 4 filler vectors). The defect found (records stored before an earlier-indexed one dropped) is fixed in /repo.",
       "Multi-vertex records only in physical order without gaps (with a gap or swap the position after a `?` read is not a constant for CBMC and vertex loops become unbounded); the index logic does not depend on the record type.")
 claim("C15", "One harness per history over {iterate j items, random access, seek, shape count} on a 3-record Point file with index; every return value is compared with the specification and the final iteration must be one of the sequences the statement allows. "
       "Two history dependences found (after seek(k>0); after a previous iteration) are open known findings.",
